@@ -60,6 +60,13 @@ def _grid_unit(grids, tag):
                 off = rnp.array([[0.5 / grid[0] + 0.013, 0.2, 0.77]])                                          # one off-grid point
                 kp = rnp.vstack([kp[: len(kp) // 2], off, kp[len(kp) // 2:]])
                 rows = rows[: len(rows) // 2] + [None] + rows[len(rows) // 2:]
+                # rows that lie on the grid in one or two directions only are off the grid as well
+                p0 = pts[rs.randrange(len(pts))]
+                part = rnp.array([[p0[0] / grid[0], p0[1] / grid[1], (p0[2] + 0.5) / grid[2] + 0.003],
+                                  [(p0[0] + 0.37) / grid[0], p0[1] / grid[1] - 1, p0[2] / grid[2]],
+                                  [(p0[0] + 0.41) / grid[0], (p0[1] + 0.29) / grid[1], p0[2] / grid[2] + 1]])
+                kp = rnp.vstack([part[:1], kp, part[1:]])
+                rows = [None] + rows + [None, None]
                 data = rnp.empty((len(rows), 2), dtype=object)
                 for i in range(len(rows)):
                     for b in range(2):
